@@ -1,10 +1,13 @@
 """Take the full observation of a real dataset object; the record has the
 shape of specs/Obs.tla ModelObs (field for field)."""
 import itertools
+import logging
 import warnings
 import numpy as np
 from .values import to_json
 from .build import build
+
+logging.getLogger('lazy_dataset').setLevel(logging.ERROR)    # catch(warn=True) only logs
 
 PROBE = ['a', 'b', 'c', 'd', 'pp', 'zz']
 RUNAWAY = 2000
